@@ -33,6 +33,10 @@ type Op struct {
 type Script struct {
 	Kind  string `json:"kind"`  // pub1 pub2in pub2out sub unsub ping
 	Tasks [][]Op `json:"tasks"` // task 0 is the processor (ack, acked); the others register
+	// Prefix is executed by one caller before the tasks start (and judged by the
+	// sequential model); it brings the ring into a chosen shape, for instance
+	// wrapped and full, so that the concurrent phase starts there.
+	Prefix []Op `json:"prefix,omitempty"`
 }
 
 type entry struct {
@@ -260,7 +264,7 @@ func Run(script interface{}, cfg simrt.Config) *world.Outcome {
 	if cfg.MaxSteps == 0 {
 		cfg.MaxSteps = 800000
 	}
-	var calls []*call
+	var calls, pre []*call
 	res := simrt.Run(cfg, nil, func(s *simrt.Sim) {
 		sess := &sessions.Session{}
 		cm := message.NewConnectMessage()
@@ -273,6 +277,13 @@ func Run(script interface{}, cfg simrt.Config) *world.Outcome {
 		q := map[string]*sessions.Ackqueue{"pub1": sess.Pub1ack, "pub2in": sess.Pub2in, "pub2out": sess.Pub2out, "sub": sess.Suback, "unsub": sess.Unsuback, "ping": sess.Pingack}[sc.Kind]
 		if q == nil {
 			q = sess.Pub1ack
+		}
+		for _, op := range sc.Prefix {
+			c := &call{op: op, task: -1}
+			c.inv = s.Stamp()
+			c.got = exec(q, op)
+			c.ret = s.Stamp()
+			pre = append(pre, c)
 		}
 		var ts []*simrt.Task
 		for ti, ops := range sc.Tasks {
@@ -315,8 +326,22 @@ func Run(script interface{}, cfg simrt.Config) *world.Outcome {
 	out.Summary["tasks"] = len(sc.Tasks)
 	out.Summary["ops"] = n
 	out.Nontrivial = n > 2
+	st0 := qstate{}
+	for i, c := range pre {
+		ns, want, asserted := step(st0, c.op)
+		if ok, why := same(c.op, c.got, want, asserted); !ok {
+			out.Add("C13", "matches-list-model", "C13/sequential/"+c.op.K, fmt.Sprintf("prefix call %d %s(type %s id %d qos %d): %s; %d request(s) in flight in the model", i, c.op.K, refmqtt.TypeName(c.op.Type), c.op.ID, c.op.QoS, why, len(st0.list)))
+			return out
+		}
+		st0 = ns
+	}
+	if len(sc.Prefix) > 0 {
+		out.Summary["prefix_ops"] = len(sc.Prefix)
+		out.Summary["in_flight_after_prefix"] = len(st0.list)
+		res.Probes["concurrent_phase_starts_on_shaped_ring"]++
+	}
 	if len(sc.Tasks) == 1 {
-		st := qstate{}
+		st := st0
 		for i, c := range calls {
 			ns, want, asserted := step(st, c.op)
 			if ok, why := same(c.op, c.got, want, asserted); !ok {
@@ -339,7 +364,7 @@ func Run(script interface{}, cfg simrt.Config) *world.Outcome {
 		ops = append(ops, porcupine.Operation{ClientId: c.task, Input: c.op, Call: c.inv, Output: c.got, Return: c.ret})
 	}
 	model := porcupine.Model{
-		Init: func() interface{} { return qstate{} },
+		Init: func() interface{} { return st0 },
 		Step: func(sti, in, o interface{}) (bool, interface{}) {
 			ns, want, asserted := step(sti.(qstate), in.(Op))
 			ok, _ := same(in.(Op), o.(outcome), want, asserted)
